@@ -1,5 +1,6 @@
 SPECIFICATION Spec
 CONSTANTS
+  Starts <- StartsBase
   Dev <- DevIdeal
   MaxRuns = 4
   FlowDef <- FlowsFree
